@@ -466,6 +466,14 @@ def build():
         bank.add(whole, ("snoc", z3.Concat(wa, wb), wy))
         return [ih], z3.Implies(all_wf.t(whole), all_wf.t(wa))
     lem.append(Lemma("all_wf-prefix", [("base", wp_base), ("step", wp_step)], P))
+    ha, hb, hy = z3.Const("ha_l", SNT.z3()), z3.Const("hb_l", SNT.z3()), z3.Const("hy_l", NT.z3())
+
+    def hp_step(bank):
+        ih = z3.Implies(all_wf_h.t(z3.Concat(ha, hb)), all_wf_h.t(ha))
+        whole = z3.Concat(ha, mk_snoc(hb, hy))
+        bank.add(whole, ("snoc", z3.Concat(ha, hb), hy))
+        return [ih], z3.Implies(all_wf_h.t(whole), all_wf_h.t(ha))
+    lem.append(Lemma("all_wf_hints-prefix", [("base", lambda bank: ([], z3.Implies(all_wf_h.t(z3.Concat(ha, z3.Empty(SNT.z3()))), all_wf_h.t(ha)))), ("step", hp_step)], P))
     fa, fb_, fy = z3.Const("fa_l", SF.z3()), z3.Const("fb_l", SF.z3()), z3.Const("fy_l", FLD.z3())
     cq = z3.Const("c_l", NCLS.z3())
 
